@@ -183,7 +183,7 @@ fn run(ctx: &Ctx, env: &Env) -> Stats {
             }
         }
     }
-    let n_rand = ctx.t(20_000u64, 600_000);
+    let n_rand = ctx.t(20_000u64, 2_000_000);
     for j in 0..8 {
         jobs.push(Box::new(move |ctx: &Ctx| {
             let mut part = Part::new(ctx, format!("random/write/{}", j), "proptest byte strings decoded into (writer cfg, offset, slice up to 600 bytes, following operations)", false);
